@@ -35,6 +35,10 @@ def main():
         print('printer model vs installed libwayland format strings: ok')
     else:
         print('installed libwayland not found: format-string binding skipped')
+    # 2b. drive the installed library itself and compare line by line
+    from . import bind_libwayland
+    if bind_libwayland.compare() != 0:
+        sys.exit('printer model disagrees with the installed libwayland')
     # 3. the `cur` dialect's connection tag is the repository's patch
     p = os.path.join(REPO, 'resources', 'libwayland-patches', '0003-Show-conn_id-in-wl_closure_print.patch')
     if os.path.exists(p):
